@@ -201,6 +201,7 @@ structure LogRec where
   funcName : Str
   tags : Option (List Str)       -- `record.__dict__["tags"]` (from `extra`), absent or `None` = `none`
   excText : Option Str           -- `formatException(record.exc_info)` when `exc_info` is set
+  stackInfo : Option Str := none -- `record.stack_info` (`stack_info=True`): the formatted stack
 deriving DecidableEq, Repr
 
 def endsWithNL : Str → Bool
@@ -208,12 +209,15 @@ def endsWithNL : Str → Bool
   | [c] => c == 10
   | _ :: t => endsWithNL t
 
-/-- `QueueHandler.prepare`: the exception text is merged into the message (`logging.Formatter.format`) and
-    `exc_info` is cleared, so the file handler sees a record without exception -/
+/-- `s + "\n" + extra` unless `s` already ends with a newline; nothing is appended for an absent or empty `extra` -/
+def appendBlock (s : Str) : Option Str → Str
+  | none => s
+  | some e => if e.isEmpty then s else s ++ ((if endsWithNL s then [] else [10]) ++ e)
+
+/-- `QueueHandler.prepare`: the exception text and the stack are merged into the message (`logging.Formatter.format`)
+    and `exc_info` / `stack_info` are cleared, so the file handler sees a record without exception -/
 def queuePrepare (r : LogRec) : LogRec :=
-  match r.excText with
-  | none => r
-  | some e => { r with msg := r.msg ++ ((if endsWithNL r.msg then [] else [10]) ++ e), excText := none }
+  { r with msg := appendBlock (appendBlock r.msg r.excText) r.stackInfo, excText := none, stackInfo := none }
 
 /-- `_JSONFormatter.format` field by field; `none` = `PenlogPriority.from_level` raises `ValueError` -/
 def formatRec (host : Str) (r : LogRec) : Option Rec :=
